@@ -1133,3 +1133,13 @@ func verifRoundTripNextHop(a *PathAttributeNextHop) bool {
 //@ func (*CapGracefulRestart).Serialize
 //@   claims at-call
 //@   at-call ^binary.BigEndian.PutUint16(buf[0:] requires int(arg2) / 4096 == int(c.Flags) % 16
+
+// from C10 "what is read back equals what was configured" / "modifications ... as configured": the community a policy
+// attaches is the one its configuration text names - a local administrator that does not fit the 2-octet field of the
+// IPv4-address / IPv6-address / 4-octet-AS forms is refused, not narrowed to another value
+//@ props C10
+//@ func ParseExtendedCommunity
+//@   claims at-call
+//@   at-call NewIPv4AddressSpecificExtended( requires localAdmin <= 65535
+//@   at-call NewIPv6AddressSpecificExtended( requires localAdmin <= 65535
+//@   at-call NewFourOctetAsSpecificExtended( requires localAdmin <= 65535
